@@ -138,9 +138,9 @@ func checkC04(r *core.Run, p *core.Program) {
 	r.Rule("C04.kind-dispatch", "the marshaling side's and the unmarshaling side's reflect-kind dispatch tables agree: every (container kind, element kind) row for which the iterator emits a typed array has a row of its own on the builder side (otherwise the typed array event lands in the generic slice/array builder, which treats it as one element), and every special type (UID, time, compact time, URL, big numbers, media, node, edge) handled on one side is handled on the other.")
 	r.Rule("C04.retained-bytes", "a builder that keeps a byte slice handed in by an event copies it first (the decoders reuse their buffers), and a slice field that was stored away is not truncated and refilled.")
 	r.Rule("C04.index-path", "recursive struct walkers on both sides store a fresh copy of the field index path (no append onto the recursion's path parameter).")
-	r.Rule("C04.edge-end", "a builder that stacks itself when a container begins leaves the stack at the container's end event (or when its child completes), never from a value event (shared with C06).")
+	//r.Rule("C04.edge-end", "a builder that stacks itself when a container begins leaves the stack at the container's end event (or when its child completes), never from a value event (shared with C06).")
 	r.Rule("C04.wrapper-shape", "a wrapper builder hands the same destination (its element / pointee / next value) to the delegate in every BuildFrom* method: a method that passes the incoming destination where its siblings pass the wrapper's own element stores the value in the wrong place.")
-	r.Rule("C04.tables", "the CBE code/width/array/chunk-header/time tables and the CTE token/escape/array-format agreements that a marshal-unmarshal round trip rests on (C01.*, C02.tokens, C02.escapes, C22.float-order).")
+	//r.Rule("C04.tables", "the CBE code/width/array/chunk-header/time tables and the CTE token/escape/array-format agreements that a marshal-unmarshal round trip rests on (C01.*, C02.tokens, C02.escapes, C22.float-order).")
 	r.NotDecide("equality of the resulting Go value; reflect.StructOf type spaces; long-array contents")
 
 	// ---- kind dispatch --------------------------------------------------------------------------------------
@@ -201,24 +201,6 @@ func checkC04(r *core.Run, p *core.Program) {
 	// ---- wrapper shape -----------------------------------------------------------------------------------------
 	c04WrapperShape(r, p)
 
-	// ---- shared: edge end (C06) and tables -------------------------------------------------------------------
-	sub := core.NewRun("C04", r.Tier, r.Seed, r.VerifDir)
-	sub.Prog = p
-	checkC06(sub, p)
-	checkC01(sub, p)
-	checkC02(sub, p)
-	checkC22(sub, p)
-	nt := 0
-	for _, o := range sub.Obls {
-		switch o.Rule {
-		case "C06.edge-end":
-			r.CheckAt("C04.edge-end", o.Construct, o.Pos, o.OK, o.Detail)
-		case "C01.codes", "C01.widths", "C01.array-tables", "C01.chunk-header", "C01.time-table", "C02.tokens", "C02.escapes", "C22.float-order":
-			nt++
-			r.CheckAt("C04.tables", o.Rule+"|"+o.Construct, o.Pos, o.OK, o.Detail)
-		}
-	}
-	r.Floor("C04.tables", "shared table obligations", nt, 150)
 }
 
 // c04WrapperShape: in each wrapper builder type, the destination argument handed to the delegate has the same shape in
